@@ -233,6 +233,10 @@ def gen_case(rng, want=None):
     case = {"tasks": tasks, "pc_offset": rng.choice([0.0, 0.0, 12345.678, 1e4 * rng.random()]), "poisson_seed": rng.randint(0, 1 << 30)}
     # the challenge may hold another, wider schedule element before or after the one that is executed: what the element's clients are told about
     # their position (index, clients of the element) must not depend on it
+    if ntasks == 1 and tasks[0]["clients"] > 1 and rng.random() < 0.15:
+        # the task is the one that completes its parallel element (completed-by): its own clients still run all of their iterations, however
+        # early a sibling client on the same worker is done
+        tasks[0]["completes_parent"] = True
     wider = rng.choice([None, None, None, "before", "after"])
     if wider:
         case["wider_neighbour"] = {"where": wider, "clients": total_clients + rng.choice([1, 2, 5, 13])}
@@ -297,6 +301,7 @@ def build_track(case):
                 warmup_iterations=t.get("warmup_iterations"), iterations=t.get("iterations"),
                 warmup_time_period=t.get("warmup_time_period"), time_period=t.get("time_period"),
                 ramp_up_time_period=t.get("ramp_up_time_period"), clients=t["clients"], schedule=t.get("schedule"), params=tp,
+                completes_parent=bool(t.get("completes_parent")),
             )
         )
     element = tobjs[0] if len(tobjs) == 1 else track.Parallel(tobjs)
@@ -335,6 +340,8 @@ def features(case):
     f = set()
     if case.get("wider_neighbour"):
         f.add("wider-neighbour-" + case["wider_neighbour"]["where"])
+    if any(t.get("completes_parent") for t in case["tasks"]):
+        f.add("completing-task-with-several-clients")
     for t in case["tasks"]:
         f.add("mode-" + t["mode"])
         f.add("throttled" if ("target_throughput" in t or "target_interval" in t) else "unthrottled")
